@@ -197,7 +197,7 @@ class Cone:
         return {a for a in self.attrs if a.split(".")[-1] == suffix}
 
     def calls_any(self, *names):
-        return any(c in names or c.split(".")[-1] in names for c in self.calls)
+        return any(c in names or c.split(".")[-1].split(":")[-1].lstrip("?") in names for c in self.calls)
 
 
 def cone(du, expr, stmt=None, interproc=True, depth=0, _seen=None, _scope=None, _out=None):
